@@ -12,6 +12,7 @@ _INSTALLED = False
 STATS = {"z3_checks": 0, "z3_seconds": 0.0}
 _FLOAT_DEFAULT = None
 _CAP_DEFAULT = None
+FLAGS = {}     # per-obligation switches set by an obligation body (reset by the worker before each obligation)
 
 
 def _log_print_lines(fname):
@@ -74,22 +75,37 @@ def install():
             self.items = tuple(sorted(items, key=repr))
 
         def __contains__(self, item):
-            acc = False
+            with NoTracing():
+                onechar = (isinstance(item, bl.AnySymbolicStr) and
+                           all(type(c) is str and len(c) == 1 for c in self.items))
+            if onechar:
+                # symbolic text against a set of single characters: compare code points (str == str forks)
+                if len(item) != 1:
+                    return False
+                item = ord(item)
+            acc = None
             for c in self.items:
-                e = (item == c)
-                if e is True:
-                    return True
-                if e is False or e is NotImplemented:
+                e = (item == (ord(c) if onechar else c))
+                # identity tests on a symbolic bool would realise it (one fork per element): do them untraced
+                with NoTracing():
+                    if e is True:
+                        return True
+                    skip = e is False or e is NotImplemented
+                    first = acc is None
+                if skip:
                     continue
-                acc = e if acc is False else (acc | e)
-            return acc
+                acc = e if first else (acc | e)
+            with NoTracing():
+                none = acc is None
+            return False if none else acc
 
     _orig = oi.ContainmentInterceptor.trace_op
 
     def trace_op(self, frame, codeobj, codenum):
         item = frame_stack_read(frame, -2)
         container = frame_stack_read(frame, -1)
-        if type(container) is frozenset and (isinstance(item, CrossHairValue) or type(item) in (tuple, list)):
+        if (type(container) is frozenset or (type(container) is set and len(container) <= 16)) and (
+                isinstance(item, CrossHairValue) or type(item) in (tuple, list)):
             # a tuple (range value) may hold symbolic cells: hashing it would realise them
             frame_stack_write(frame, -1, _OrSet(container))
             return
@@ -328,6 +344,196 @@ def install():
         return diff <= bound
     _core._PATCH_REGISTRATIONS[_math.isclose] = _isclose
 
+    # 12. the decimal rounding idiom  int(Decimal(repr(x) | n).scaleb(e).quantize(Decimal(1), ROUND_HALF_UP))
+    # (Decimal is C code).  Active only when the obligation sets FLAGS["decimal"]; under the floats-as-reals
+    # assumption repr(x) spells x exactly.  Anything but this chain falls back to a realised real Decimal.
+    import decimal as _dec
+    from crosshair.core import realize as _realize, deep_realize as _deep_realize
+
+    class _FloatRepr:
+        def __init__(self, x):
+            self.x = x
+
+        def _real(self):
+            return repr(_realize(self.x))
+
+        def __str__(self):
+            return self._real()
+
+        def __getattr__(self, name):
+            return getattr(self._real(), name)
+
+    class _SymDec:
+        def __init__(self, val):
+            self.val = val
+
+        def _real(self):
+            v = _realize(self.val)
+            return _dec.Decimal(v) if isinstance(v, int) else _dec.Decimal(repr(v))
+
+        def scaleb(self, n, context=None):
+            n = _realize(n)
+            return _SymDec(self.val * 10 ** n if n >= 0 else self.val / 10 ** (-n))
+
+        def quantize(self, exp, rounding=None, context=None):
+            with NoTracing():
+                ok = (type(exp) is _dec.Decimal and exp == _dec.Decimal(1) and rounding == _dec.ROUND_HALF_UP)
+                isint = isinstance(self.val, (int, bl.SymbolicInt))
+            if not ok:
+                return self._real().quantize(exp, rounding=rounding)
+            if isint:
+                return self
+            v = self.val
+            with NoTracing():
+                concrete = not isinstance(v, bl.SymbolicFloat)
+            if concrete:
+                return _SymDec(int(_dec.Decimal(repr(v)).quantize(exp, rounding=rounding)))
+            neg = v < 0
+            if neg:
+                v = -v
+            with NoTracing():
+                # n = floor(v + 1/2) as a fresh integer tied to v by two linear inequalities (to_int terms under
+                # later div/mod time the solver out)
+                space = _core.context_statespace()
+                n = z3.Int(f"rounded{space.uniq()}")
+                space.add(z3.And(z3.ToReal(n) <= v.var + z3.RealVal("1/2"), v.var + z3.RealVal("1/2") < z3.ToReal(n) + 1))
+                out = bl.SymbolicInt(n)
+            return _SymDec(-out if neg else out)
+
+        def to_int(self):
+            v = self.val
+            with NoTracing():
+                isint = isinstance(v, (int, bl.SymbolicInt))
+            return v if isint else v.__int__()
+
+        def __getattr__(self, name):
+            return getattr(self._real(), name)
+
+    _orepr = _core._PATCH_REGISTRATIONS[repr]
+
+    def _repr(obj):
+        with NoTracing():
+            hit = FLAGS.get("decimal") and isinstance(obj, bl.SymbolicFloat)
+        if hit:
+            return _FloatRepr(obj)
+        # CrossHair's own patch carries a contract ("post[]: True"), which makes it a candidate for
+        # short-circuiting (an arbitrary string instead of the rendering): call its body directly
+        return bl.invoke_dunder(obj, "__repr__")
+    _core._PATCH_REGISTRATIONS[repr] = _repr
+
+    def _Decimal(value="0", context=None):
+        with NoTracing():
+            kind = 0
+            if FLAGS.get("decimal"):
+                if isinstance(value, _FloatRepr):
+                    kind = 1
+                elif isinstance(value, bl.SymbolicInt):
+                    kind = 2
+                elif isinstance(value, _SymDec):
+                    kind = 3
+            if kind == 1:
+                return _SymDec(value.x)
+            if kind == 2:
+                return _SymDec(value)
+            if kind == 3:
+                return value
+            if isinstance(value, _FloatRepr):
+                value = value._real()
+            return _dec.Decimal(_deep_realize(value))
+    _core._PATCH_REGISTRATIONS[_dec.Decimal] = _Decimal
+
+    _oint2 = _core._PATCH_REGISTRATIONS[int]
+
+    def _int2(val=0, *a):
+        with NoTracing():
+            isd = isinstance(val, _SymDec) and not a
+        if isd:
+            return val.to_int()
+        return _oint2(val, *a)
+    _core._PATCH_REGISTRATIONS[int] = _int2
+
+    # 13. format(number, spec) as used by f-strings, for the specs of the TEXT() renderer:
+    #     ints: '' 'd' ',' '0<N>d';  floats (as reals): '#[,].<N>f' = correctly rounded (ties to even) decimal digits
+    import re as _re
+    _oformat = _core._PATCH_REGISTRATIONS[format]
+    _INT_SPEC = _re.compile(r"^(?:(,)|0(\d+)d|d|)$")
+    _FLT_SPEC = _re.compile(r"^#?(,?)\.(\d+)f$")
+
+    def _group(s):
+        n = len(s)
+        if n <= 3:
+            return s
+        if n <= 6:
+            return s[:n - 3] + "," + s[n - 3:]
+        if n <= 9:
+            return s[:n - 6] + "," + s[n - 6:n - 3] + "," + s[n - 3:]
+        return None
+
+    def _dec_str(v):
+        """decimal digits of v >= 0: fork on the digit count, then fresh digit variables tied to v by one linear
+        equation (nested div/mod chains time the solver out from five digits on)"""
+        with NoTracing():
+            sym = isinstance(v, bl.SymbolicInt)
+            if not sym:
+                return str(v)
+        n, bound = 1, 10
+        while not v < bound:
+            n, bound = n + 1, bound * 10
+            if n > 12:
+                return v.__str__()
+        with NoTracing():
+            space = _core.context_statespace()
+            ds = [z3.Int(f"digit{space.uniq()}") for _ in range(n)]
+            for d in ds:
+                space.add(z3.And(d >= 0, d <= 9))
+            space.add(v.var == z3.Sum([d * 10 ** (n - 1 - i) for i, d in enumerate(ds)]))
+            return bl.LazyIntSymbolicStr([bl.SymbolicInt(48 + d) for d in ds])
+
+    def _fmt_int(v, comma, width):
+        neg = v < 0
+        s = _dec_str(-v if neg else v)
+        if width:
+            if len(s) < width:
+                s = "0" * (width - len(s)) + s
+        if comma:
+            g = _group(s)
+            if g is None:
+                return None
+            s = g
+        return "-" + s if neg else s
+
+    def _format(obj, format_spec=""):
+        with NoTracing():
+            kind, m = 0, None
+            if isinstance(format_spec, str) and FLAGS.get("format"):
+                if isinstance(obj, bl.SymbolicInt):
+                    m = _INT_SPEC.match(format_spec)
+                    kind = 1 if m else 0
+                elif isinstance(obj, bl.SymbolicFloat):
+                    m = _FLT_SPEC.match(format_spec)
+                    kind = 2 if m else 0
+        if kind == 1:
+            r = _fmt_int(obj, bool(m.group(1)), int(m.group(2) or 0))
+            if r is not None:
+                return r
+        if kind == 2:
+            d = int(m.group(2))
+            neg = obj < 0
+            y = (-obj if neg else obj) * 10 ** d
+            f = y.__floor__()
+            diff = y - f
+            if diff > 0.5 or (diff == 0.5 and f % 2 == 1):
+                f = f + 1
+            ip, fp = divmod(f, 10 ** d)
+            left = _fmt_int(ip, bool(m.group(1)), 0)
+            if left is not None:
+                frac = _dec_str(10 ** d + fp)[1:] if d else ""
+                out = left + "." + frac if (d or format_spec[:1] == "#") else left
+                return "-" + out if neg else out
+        with NoTracing():
+            return _oformat(obj, format_spec)
+    _core._PATCH_REGISTRATIONS[format] = _format
+
     _FLOAT_DEFAULT = bl._PYTYPE_TO_WRAPPER_TYPE[float]
 
 
@@ -350,7 +556,7 @@ def set_float_mode(mode):
 
 
 MODELS = [
-    "`sym in frozenset` as a linear scan of equalities (LinearSet)",
+    "`sym in frozenset` / `sym in set of <=16 constants` as one disjunction of equalities (identity tests on the symbolic result done untraced, so no fork per element); a symbolic character against single characters by code point",
     "f-string/str.format on log-call, print-call and capture_error_state-call lines of excelcompiler.py/excelformula.py/excelutil.py return a constant (diagnostic text only)",
     "int(symbolic float) routed to the proxy's __int__ (z3 ToInt)",
     "float as exact real, UNKNOWN cap of real-based floats lifted (obligations tagged float=real)",
@@ -361,5 +567,9 @@ MODELS = [
     "math.isclose(symbolic): |a-b| <= max(rel_tol*max(|a|,|b|), abs_tol) over finite reals",
     "fix: crosshair.fnutil.fn_globals tolerates closures with unassigned free variables",
     "fix of SymbolicBoundedIntTuple._create_up_to (negative slice appended phantom characters)",
+    "only where the obligation switches it on (TEXT): repr(float-as-real) spells the real exactly; Decimal(that | symbolic int).scaleb(e).quantize(Decimal(1), ROUND_HALF_UP) -> int(): floor(|v| + 1/2) with the sign restored, the floor a fresh integer tied by two linear inequalities; any other Decimal use realises",
+    "only where the obligation switches it on (TEXT): format(symbolic int, '' | 'd' | ',' | '0<N>d') and format(float-as-real, '#[,].<N>f' = round-half-even at N digits): digits as fresh variables in 0..9 tied to the value by one linear equation, one fork per digit count",
+    "CrossHair built-in, stated here because it hides process state: functools.lru_cache wrappers are called without their cache while tracing (history obligations such as C16 match_twice / C17 date_history therefore branch their operands into constants and make the calls with the tracer off)",
+    "repr() patch called without CrossHair's contract wrapper (its `post[]: True` made repr() eligible for short-circuiting to an arbitrary string)",
     "str.lower()/upper() of a symbolic code point < 128 as the 26-letter ASCII shift (others: CrossHair's Unicode model)",
 ]
